@@ -39,7 +39,7 @@ def strategy(tier):
         flavor = draw(st.sampled_from(["det", "prob", "ens", "full", "full"]))
         spec = draw(gen.dataset(max_inputs=1, clim=False, flavor=flavor, core_max=3, extra_max=1, allow_drop=False,
                                 max_members=3, allow_obsless=False, var_x=True))
-        layout = {"missing": draw(st.sampled_from(["fill", "-999", "nan", "big"])),
+        layout = {"missing": draw(st.sampled_from(["fill", "-999", "nan", "big", "fill-9999", "missing_value"])),
                   "dtype": draw(st.sampled_from(["f4", "f4", "f8"])),
                   "time_dtype": draw(st.sampled_from(["f8", "f8", "i4"])),
                   "with_altitude": draw(st.sampled_from([True, True, False])),
